@@ -168,7 +168,11 @@ def builder_mutators(it):
     return out
 
 
-def mk_source(it):
+def mk_source(it, concrete=False):
+    if concrete:
+        kids = [cm.new_cell(it, cm.tvm_bits(it, BA([Seg(2, 'k', f'1{i}')])), []) for i in range(2)]
+        seg = BA([Seg(61, 'k', '1' + '0110' * 15)])
+        return cm.new_cell(it, cm.tvm_bits(it, seg), kids), kids
     kids = [cm.leaf(it, 2, f'k{i}') for i in range(2)]
     seg = BA([Seg(1, 'k', '1'), Seg(60, '?', Sym('payload', ty='bits', n=60, key=('payload',)))])
     return cm.new_cell(it, cm.tvm_bits(it, seg), kids), kids
@@ -365,11 +369,27 @@ def check(run):
         'begin_parse': lambda: K(snap_slice(it, call(it, c, 'begin_parse'))),
         'copy': lambda: K(snap(it, call(it, c, 'copy'))),
     }
+    sym_state = (it, c, before)
     for name, fn in obs.items():
+        it, c, before = sym_state
         try:
-            a1 = fn()
-            a2 = fn()
-            a3 = fn()
+            try:
+                a1 = fn()
+                a2 = fn()
+                a3 = fn()
+            except Fail as e:
+                # not interpretable over symbolic content (e.g. a checksum routine the interpreter has no summary for): the same
+                # observation on a tree with concrete content - the obligation is about mutation, which does not depend on the bits
+                it = Interp(prog)
+                c, kids = mk_source(it, concrete=True)
+                before = snap(it, c)
+                try:
+                    a1 = fn()
+                    a2 = fn()
+                    a3 = fn()
+                except Fail as e2:
+                    raise AnalysisError(f'Cell.{name} not interpretable: {e} / on concrete content: {e2}')
+                run.info(f'Cell.{name}: observed on concrete content ({str(e)[:80]})')
             same_res = vrepr(a1) == vrepr(a2) == vrepr(a3)
         except RaiseEx as e:
             run.fail('D2', f'Cell.{name}', f'raises {e}', wc)
